@@ -9,6 +9,8 @@ Direct oracle: the relations of the statement evaluated on the real code for ran
   monotone    raw (center=False) accumulation curves of non-negative rewards are non-decreasing
   horizon     default end time: mean == infinite-horizon mean, or the "could not reliably find time of almost sure
               absorption" warning was logged; nearly disconnected demes must produce the warning
+  used        the default-horizon statistics of an object that FIRST evaluated a grid reaching past the change points
+              (state space left in a later epoch) equal those of a fresh object and the explicit far-horizon value
   restart     Markov property at a change point where the state is known from the cdf (n = 2, one deme):
               1-cdf(tb+s) = (1-cdf(tb)) * (1-cdf_shifted(s)), mean(0,T) = mean(0,tb) + (1-cdf(tb)) * mean_shifted(0,T-tb)
               (the generator used after an epoch switch is the new epoch's)
@@ -25,7 +27,8 @@ META = dict(
          'Dirac, 1-3 epochs with dyadic change times, sizes 2^[-3..3]; parameters: redundant entries at random times '
          '(inside epochs, on boundaries of other keys, beyond the last change), grids / end times / windows drawn from a '
          'pool holding 0, every epoch boundary, points next to and between boundaries and beyond the last one; horizon '
-         'clause additionally on 2-3 demes connected only by migration rates 1e-8..1e-6; restart clause on dedicated '
+         'clause additionally on 2-3 demes connected only by migration rates 1e-8..1e-6; used-object clause on every '
+         'multi-epoch configuration and on dedicated ones whose later epochs coalesce 2^5..2^13 times faster; restart clause on dedicated '
          'n = 2 one-deme configurations with 2-3 epochs; non-trivial = at least 2 epochs (for restart / redundant: always) '
          'and at least 3 states, or a horizon case in which the search gave up',
     trusted_base=['IEEE doubles / scipy.linalg.expm', 'fixExp ~ exp (driver) for the infinite-horizon reference of the '
@@ -486,6 +489,98 @@ def clause_horizon(ctx, pg, cfg, params):
                oracle=oracle, tolerance=dict(rel=1e-7), log=lc.records)
 
 
+# ----------------------------------------------------------------------------------------- (6b) default horizon on a used object
+def fast_later_cfg(rng):
+    """multi-epoch demography whose LATER epochs coalesce much faster (sizes like {0: 1, 3: 0.01})"""
+    D = rng.choice([1, 1, 2])
+    names = list(rng.choice(gen.NAME_SETS)[:D]); rng.shuffle(names)
+    n = rng.randint(2, 4 if D == 1 else 3)
+    vec = rng.choice([v for v in gen.splits(n, D)])
+    ne = rng.choice([2, 2, 3])
+    eps, t = [], 0.0
+    base = {p: gen.dyadic(rng, 0, 3) for p in names}
+    for e in range(ne):
+        f = 1.0 if e == 0 else 2.0 ** -rng.randint(5, 10) * (2.0 ** -rng.randint(0, 3)) ** (e - 1)
+        sizes = {p: base[p] * f for p in names}
+        mig = {(a, b): gen.dyadic(rng, -2, 1) for a in names for b in names if a != b}
+        eps.append(dict(start=t, sizes=sizes, mig=mig))
+        # the change comes while a good part of the probability mass is still unabsorbed
+        t = t + min(base.values()) * rng.choice([0.5, 1.0, 2.0, 3.0]) if e == 0 else t + 2.0 ** rng.randint(-6, -2)
+    return dict(n=dict(zip(names, vec)), model=rng.choice([('kingman',), ('kingman',), ('beta', 1.5, False), ('dirac', 0.5, 1.0, False)]),
+                epochs=eps, loci=1)
+
+
+def gen_used(cfg, rng):
+    b = [e['start'] for e in cfg['epochs'][1:]]
+    last = b[-1] if b else 1.0
+    grid = sorted({x * rng.choice([0.25, 0.5, 1.0]) for x in b} | {last + 2.0 ** rng.randint(-8, 1), last * 2 + 1.0})
+    if rng.random() < 0.3:
+        grid = [last + 2.0 ** rng.randint(-8, 1)]
+    return dict(grid=grid, first=rng.choice(['th.accumulate', 'th.cdf', 'tbl.accumulate', 'coal.accumulate', 'sfs.accumulate',
+                                              'th.moment(end_time)']))
+
+
+def default_stats(pg, coal):
+    return {'tree_height.mean': float(coal.tree_height.mean), 'coal.moment(1)': float(coal.moment(1)),
+            'total_branch_length.mean': float(coal.total_branch_length.mean),
+            'tree_height.var': float(coal.tree_height.var), 't_max': float(coal.tree_height.t_max)}
+
+
+def clause_used(ctx, pg, cfg, params):
+    """
+    default-horizon statistics on an object that first evaluated a grid reaching past the change points (its state
+    space is then left in a later epoch) == the same statistics of a fresh object == the explicit far-horizon value,
+    unless a warning is logged.  Not wrapped by `guarded`: warnings are handled here.
+    """
+    grid, first = params['grid'], params['first']
+    with C.LogCapture() as lc_f:
+        fresh = default_stats(pg, make(pg, cfg))
+    used = make(pg, cfg)
+    with C.LogCapture() as lc_g:
+        if first == 'th.accumulate':
+            used.tree_height.accumulate(1, grid)
+        elif first == 'th.cdf':
+            used.tree_height.cdf(np.array(grid))
+        elif first == 'tbl.accumulate':
+            used.total_branch_length.accumulate(2, grid)
+        elif first == 'coal.accumulate':
+            used.accumulate(1, grid, rewards=(conv.make_reward(pg, TBL),))
+        elif first == 'sfs.accumulate':
+            used.sfs.accumulate(1, grid) if small_sfs(cfg) else used.tree_height.accumulate(1, grid)
+        else:
+            used.tree_height.moment(1, end_time=max(grid))
+    with C.LogCapture() as lc_u:
+        after = default_stats(pg, used)
+    with C.LogCapture() as lc_far:
+        T_far = 64.0 * fresh['t_max']
+        far_c = make(pg, cfg, end_time=T_far)
+        far = {'tree_height.mean': float(far_c.tree_height.mean), 'coal.moment(1)': float(far_c.moment(1)),
+               'total_branch_length.mean': float(far_c.total_branch_length.mean)}
+    past = len(cfg['epochs']) >= 2 and max(grid) > cfg['epochs'][1]['start']
+    ctx.case(dict(cfg=cfg, clause='used', params=params, fresh=fresh, after_grid=after),
+             digest(gen.cfg_key(cfg), 'used', json.dumps(params)) if past else None)
+    ctx.count('clause:used'); ctx.count(f'used:first={first}')
+    if lc_f.records or lc_u.records or lc_g.records:
+        ctx.count('warned:used'); ctx.skipped += 1
+        return
+    for key in ('t_max', 'tree_height.mean', 'coal.moment(1)', 'total_branch_length.mean', 'tree_height.var'):
+        tol = 1e-7 if key != 'tree_height.var' else 1e-6
+        if key == 't_max':
+            # the horizon search is deterministic: same demography, same answer (reported through the means below if
+            # it matters; a different but sufficient horizon is not a failure)
+            continue
+        if not C.close(after[key], fresh[key], tol):
+            report(ctx, f'used:{key}', cfg, 'used', params, statistic=key, fresh_object=fresh[key], after_grid_call=after[key],
+                   t_max_fresh=fresh['t_max'], t_max_after_grid_call=after['t_max'], tolerance=dict(rel=tol),
+                   oracle='the same default-horizon statistic on a fresh object', log=lc_u.records)
+            return
+        if key in far and not lc_far.records and not C.close(after[key], far[key], 1e-7):
+            report(ctx, f'used-far:{key}', cfg, 'used', params, statistic=key, far_horizon=far[key], end_time=T_far,
+                   after_grid_call=after[key], t_max_after_grid_call=after['t_max'], tolerance=dict(rel=1e-7),
+                   oracle=f'Coalescent(end_time={T_far}) on a fresh object')
+            return
+
+
 # ----------------------------------------------------------------------------------------- (7) restart at a change point
 def restart_cfg(rng):
     name = rng.choice(['pop_0', 'a', 'Z'])
@@ -541,7 +636,7 @@ def clause_restart(ctx, pg, cfg, params):
 
 # ----------------------------------------------------------------------------------------- driver
 CLAUSES = dict(redundant=clause_redundant, refine=clause_refine, route=clause_route, additive=clause_additive,
-               monotone=clause_monotone, horizon=clause_horizon, restart=clause_restart)
+               monotone=clause_monotone, horizon=clause_horizon, restart=clause_restart, used=clause_used)
 
 
 def make_cfg(rng, quick):
@@ -563,6 +658,13 @@ def one(ctx, item):
         ctx.count('cfg:nearly-disconnected')
         clause_horizon(ctx, pg, cfg, dict(expect_unreached=True, use_model=True))
         return
+    if isinstance(item, str) and item.startswith('fast'):
+        cfg = fast_later_cfg(rng)
+        ctx.count('cfg:fast-later-epochs')
+        for _ in range(3):
+            clause_used(ctx, pg, cfg, C.jsonable(gen_used(cfg, rng)))
+        clause_horizon(ctx, pg, cfg, dict(use_model=n_states(cfg) <= 6))
+        return
     if isinstance(item, str) and item.startswith('restart'):
         cfg = restart_cfg(rng)
         ctx.count('cfg:restart')
@@ -580,13 +682,15 @@ def one(ctx, item):
             p = C.jsonable(g(cfg, rng))
             guarded(ctx, name, lambda: CLAUSES[name](ctx, pg, cfg, p))
     clause_horizon(ctx, pg, cfg, dict(use_model=n_states(cfg) <= (6 if quick else 9)))
+    if len(cfg['epochs']) >= 2:
+        clause_used(ctx, pg, cfg, C.jsonable(gen_used(cfg, rng)))
 
 
 def run(ctx):
     import check
     q = ctx.quick
     items = list(range(200 if q else 1800)) + [f"disc-{i}" for i in range(32 if q else 160)] + \
-        [f'restart-{i}' for i in range(48 if q else 400)]
+        [f'restart-{i}' for i in range(48 if q else 400)] + [f'fast-{i}' for i in range(48 if q else 400)]
     ctx.rng.shuffle(items)
     check.pmap(ctx, 'props.c10', 'one', items, case_timeout=300 if q else 1200)
 
@@ -595,7 +699,4 @@ def replay(ctx, payload):
     pg = C.import_phasegen()
     cfg = conv.cfg_from_json(payload['cfg'])
     clause, params = payload['clause'], payload['params']
-    if clause == 'horizon':
-        clause_horizon(ctx, pg, cfg, params)
-    else:
-        CLAUSES[clause](ctx, pg, cfg, params)
+    CLAUSES[clause](ctx, pg, cfg, params)
